@@ -13,3 +13,16 @@ pub assume_specification<T: Ord>[ std::cmp::min::<T> ](a: T, b: T) -> (r: T)
 // ASSUMED (std docs, `usize::abs_diff`): "Computes the absolute difference between self and other."
 pub assume_specification[ usize::abs_diff ](a: usize, b: usize) -> (r: usize)
     ensures r == (if a >= b { a - b } else { b - a });
+
+// ASSUMED (std docs): isize::abs (overflows, i.e. panics in debug builds, only for isize::MIN), unsigned_abs,
+// saturating_sub / saturating_add ("saturating at the numeric bounds instead of overflowing").  Added so that a change
+// which starts using them is decided instead of being undecided for a missing specification.
+pub assume_specification[ isize::abs ](a: isize) -> (r: isize)
+    requires a > isize::MIN,
+    ensures r == (if a >= 0 { a as int } else { -(a as int) });
+pub assume_specification[ isize::unsigned_abs ](a: isize) -> (r: usize)
+    ensures r == (if a >= 0 { a as int } else { -(a as int) });
+pub assume_specification[ isize::saturating_sub ](a: isize, b: isize) -> (r: isize)
+    ensures r == (if a - b > isize::MAX { isize::MAX as int } else if a - b < isize::MIN { isize::MIN as int } else { a - b });
+pub assume_specification[ isize::saturating_add ](a: isize, b: isize) -> (r: isize)
+    ensures r == (if a + b > isize::MAX { isize::MAX as int } else if a + b < isize::MIN { isize::MIN as int } else { a + b });
